@@ -19,6 +19,12 @@
 (*   DoFeedback  = "rerun"   facts added by do-transforms are the delta of *)
 (*                           further incremental rounds (after the fix)    *)
 (*               = "none"    they are only added to the store (before)     *)
+(*   Resume        a second EvalProgram call on the store the first one    *)
+(*                 left, after more base facts (prog.edb2) were added:     *)
+(*                 incremental evaluation.  Its result is the model of all *)
+(*                 base facts for positive programs (T01i); with negation  *)
+(*                 or aggregation facts derived earlier may be stale, and  *)
+(*                 nothing is claimed.                                     *)
 (* The order in which strata, rules and predicates are visited comes from  *)
 (* Go map iteration; here it is nondeterministic choice.                   *)
 (***************************************************************************)
@@ -33,8 +39,9 @@ VARIABLES prog,      \* the program being evaluated
           todo,      \* strata (sets of predicates) not yet evaluated
           cur,       \* [preds, plain, dos] of the stratum being evaluated
           phase, round, created, outcome,
-          doDone     \* the do-transforms of the current stratum have been applied
-vars == <<prog, store, delta, todo, cur, phase, round, created, outcome, doDone>>
+          doDone,    \* the do-transforms of the current stratum have been applied
+          pass       \* 1: first evaluation, 2: incremental re-evaluation after adding prog.edb2
+vars == <<prog, store, delta, todo, cur, phase, round, created, outcome, doDone, pass>>
 
 ---------------------------------------------------------------------------
 \* (SCCs, ReadyComp: see Semantics.tla)
@@ -72,13 +79,13 @@ DeriveDelta(c, i, I, D) ==
 ---------------------------------------------------------------------------
 Init == /\ prog \in Programs
         /\ store = {} /\ delta = {} /\ todo = {} /\ cur = [preds |-> {}, plain |-> {}, dos |-> {}, orig |-> {}]
-        /\ phase = "load" /\ round = 0 /\ created = 0 /\ outcome = "running" /\ doDone = FALSE
+        /\ phase = "load" /\ round = 0 /\ created = 0 /\ outcome = "running" /\ doDone = FALSE /\ pass = 1
 
 LoadFacts == /\ phase = "load"
              /\ store' = prog.edb
              /\ todo' = SCCs(prog.rules)
              /\ phase' = "next"
-             /\ UNCHANGED <<prog, delta, cur, round, created, outcome, doDone>>
+             /\ UNCHANGED <<pass, prog, delta, cur, round, created, outcome, doDone>>
 
 BeginStratum ==
   /\ phase = "next" /\ todo # {}
@@ -87,20 +94,20 @@ BeginStratum ==
        /\ cur' = [preds |-> c] @@ Rewritten({r \in prog.rules : r.h.p \in c})
        /\ todo' = todo \ {c}
   /\ phase' = "first" /\ round' = 0 /\ delta' = {} /\ doDone' = FALSE
-  /\ UNCHANGED <<prog, store, created, outcome>>
+  /\ UNCHANGED <<pass, prog, store, created, outcome>>
 
 FirstRound ==
   /\ phase = "first"
   /\ delta' = UNION {Derive(r, store) : r \in cur.plain}
   /\ phase' = IF delta' = {} THEN "do" ELSE "merge0"   \* the code enters the incremental loop only with a non-empty delta
-  /\ UNCHANGED <<prog, store, todo, cur, round, created, outcome, doDone>>
+  /\ UNCHANGED <<pass, prog, store, todo, cur, round, created, outcome, doDone>>
 
 Merge0 ==
   /\ phase = "merge0"
   /\ store' = store \cup delta
   /\ created' = created + Cardinality(delta \ store)
   /\ phase' = "delta"
-  /\ UNCHANGED <<prog, delta, todo, cur, round, outcome, doDone>>
+  /\ UNCHANGED <<pass, prog, delta, todo, cur, round, outcome, doDone>>
 
 DeltaRound ==
   /\ phase = "delta"
@@ -112,7 +119,7 @@ DeltaRound ==
         /\ created' = created + Cardinality(new)
         /\ phase' = IF new # {} THEN "delta" ELSE IF doDone THEN "next" ELSE "do"
   /\ round' = round + 1
-  /\ UNCHANGED <<prog, todo, cur, outcome, doDone>>
+  /\ UNCHANGED <<pass, prog, todo, cur, outcome, doDone>>
 
 \* do-transforms run once per stratum, after the fixpoint of its plain rules; what they add is
 \* the delta of further incremental rounds ("rerun"), after which the stratum is finished
@@ -126,20 +133,28 @@ DoPhase ==
      /\ IF DoFeedback = "rerun" /\ new # {}
         THEN delta' = new /\ phase' = "delta"
         ELSE delta' = delta /\ phase' = "next"
-  /\ UNCHANGED <<prog, todo, cur, round, outcome>>
+  /\ UNCHANGED <<pass, prog, todo, cur, round, outcome>>
 
 Finish ==
   /\ phase = "next" /\ todo = {}
   /\ phase' = "done" /\ outcome' = "ok"
-  /\ UNCHANGED <<prog, store, delta, todo, cur, round, created, doDone>>
+  /\ UNCHANGED <<pass, prog, store, delta, todo, cur, round, created, doDone>>
 
 \* WithCreatedFactLimit: the run may stop with an error once more than limit facts were created
 LimitTrip ==
   /\ phase \in {"delta", "merge0", "do"} /\ prog.limit > 0 /\ created > prog.limit
   /\ phase' = "done" /\ outcome' = "limit_err"
-  /\ UNCHANGED <<prog, store, delta, todo, cur, round, created, doDone>>
+  /\ UNCHANGED <<pass, prog, store, delta, todo, cur, round, created, doDone>>
 
-Next == LoadFacts \/ BeginStratum \/ FirstRound \/ Merge0 \/ DeltaRound \/ DoPhase \/ Finish \/ LimitTrip
+Edb2(p) == IF "edb2" \in DOMAIN p THEN p.edb2 ELSE {}
+Resume ==
+  /\ phase = "done" /\ outcome = "ok" /\ pass = 1 /\ Edb2(prog) # {}
+  /\ store' = store \cup Edb2(prog)
+  /\ todo' = SCCs(prog.rules)
+  /\ phase' = "next" /\ outcome' = "running" /\ pass' = 2 /\ delta' = {}
+  /\ UNCHANGED <<prog, cur, round, created, doDone>>
+
+Next == LoadFacts \/ BeginStratum \/ FirstRound \/ Merge0 \/ DeltaRound \/ DoPhase \/ Finish \/ LimitTrip \/ Resume
 Spec == Init /\ [][Next]_vars
 
 ---------------------------------------------------------------------------
@@ -147,12 +162,16 @@ AllTmpPreds == {TmpPred(r, i) : r \in prog.rules, i \in 1..Cardinality(prog.rule
 Visible(S) == {f \in S : f.p \notin AllTmpPreds}
 
 \* T01: a run that ends without error holds exactly the stratified least model
-T01 == (phase = "done" /\ outcome = "ok") =>
+T01 == (phase = "done" /\ outcome = "ok" /\ pass = 1) =>
           Visible(store) = StratifiedModel(prog.rules, prog.edb)
+\* T01i: incremental re-evaluation of a positive program ends with the model of all base facts
+Positive(rs) == \A r \in rs : ~IsDo(r) /\ \A i \in DOMAIN r.b : r.b[i][1] # "neg"
+T01i == (phase = "done" /\ outcome = "ok" /\ pass = 2 /\ Positive(prog.rules)) =>
+          Visible(store) = StratifiedModel(prog.rules, prog.edb \cup Edb2(prog))
 \* the invariant the delta rules rely on (false for "lagging" from the second round on)
 DeltaInv == phase = "delta" => delta \subseteq store
 \* soundness holds in every state, for every variant
-Sound == Visible(store) \subseteq StratifiedModel(prog.rules, prog.edb)
+Sound == pass = 1 => Visible(store) \subseteq StratifiedModel(prog.rules, prog.edb)
 \* T17 (spec level): an "ok" outcome is never a truncated model; created facts are counted
 T17 == (phase = "done" /\ outcome = "limit_err") => created > prog.limit
 =============================================================================
